@@ -61,7 +61,7 @@ void h_parse_frame(void) {
     if (other) o_other = *other;
     lltd_iface_state o; V_ZERO(o);
     if (ours) o = *ours;
-    uint8_t *f = in.frame;
+    V_EXACT_OBJECT(f, in.frame, V_MTU_FIXED);
     uint8_t tos = f[15], op = f[17];
     uint16_t gen = v_be16(f + 32);
     uint32_t live0 = g_led.live;
